@@ -908,7 +908,9 @@ impl ActTask for Arc<Task> {
                 NodeContent::Step(step) => step.run(ctx),
                 NodeContent::Act(act) => act.run(ctx),
             }?;
-            ctx.emit_task(&ctx.task())?;
+            // report the task that ran: a package may have moved the context to another task
+            // (an action act works on its parent, an abort walks up to the root)
+            ctx.emit_task(&task)?;
         }
 
         Ok(())
